@@ -1,7 +1,7 @@
 (* C14 — Endpoints identify one connection forever; ids are never reused.
    Part 1: bit layout, accessors, tokens, generator (resource_id.rs, poll.rs).
-   Part 2 (registry histories, stale endpoints, event attribution) is in props/C14b.v over Driver.v. *)
-From MIO Require Import Base Gen Bits ResId ResIdProofs.
+   Part 2: registry histories over the driver model (Driver.v): stale endpoints, event attribution. *)
+From MIO Require Import Base Gen Bits ResId ResIdProofs Driver DriverProofs.
 Local Open Scope N_scope.
 
 (* per-run obligation on the regenerated constants of resource_id.rs / poll.rs *)
@@ -63,7 +63,49 @@ Proof.
   vm_compute. reflexivity.
 Qed.
 
+(* ---- part 2: histories of the registry/driver ------------------------------------------------ *)
+
+(* An endpoint kept after its connection ended (Disconnected, or remove() -> true) addresses nothing,
+   for good: after ANY continuation of the history -- new connects and accepts on the same adapter,
+   traffic, other removals, any adapter behaviour, user calls inside callbacks -- send() on it
+   answers ResourceNotFound WITHOUT reaching the adapter's transmit function (no peer receives
+   anything), is_ready() answers None and remove() false. *)
+Theorem C14_stale_endpoint_forever : forall (a : N) (l1 l2 : list dlabel) (id : rid) (to : addr) (len : N) (ans : send_status),
+  a <= max_adapter gen_layout -> cost_labels (l1 ++ l2) <= max_base gen_layout + 1 ->
+  resource_type gen_layout id = Remote ->
+  count_ends id (snd (drun (dinit a) l1)) = 1%nat ->
+  let s := fst (drun (dinit a) (l1 ++ l2)) in
+  exec_ucall s (USend (id, to) len ans) = (s, [ORet (USend (id, to) len ans) (RSend ResourceNotFound)]) /\
+  exec_ucall s (UIsReady id) = (s, [ORet (UIsReady id) (RIsReady None)]) /\
+  exec_ucall s (URemove id) = (s, [ORet (URemove id) (RRemove false)]).
+Proof. exact (stale_endpoint_forever C14_gen_obligation). Qed.
+
+(* Every event is reported with the endpoint of the connection it occurred on: in every history the
+   trace is accepted by the lifecycle automaton, which admits Connected / Message / Disconnected for
+   an id only with the peer address that id was registered with, and Accepted only for an id never
+   seen before (so no event can carry the id of an older or of another connection). *)
+Theorem C14_events_carry_their_own_endpoint : forall (a : N) (ls : list dlabel),
+  a <= max_adapter gen_layout -> cost_labels ls <= max_base gen_layout + 1 ->
+  lifecycle_ok_b (snd (drun (dinit a) ls)) = true.
+Proof. exact (lifecycle_regular C14_gen_obligation). Qed.
+
+(* non-vacuity: connection 5 ends, a NEWER connection 261 is opened on the same adapter and is
+   ready; the stale endpoint answers ResourceNotFound and reaches no adapter *)
+Example C14_stale_endpoint_example :
+  let ready := {| a_race0 := []; a_pending := PReady; a_cb_conn := []; a_chunks := []; a_read := RWaitNextEvent;
+                  a_race := []; a_cb_disc := []; a_accepts := [] |} in
+  let closed := {| a_race0 := []; a_pending := PReady; a_cb_conn := []; a_chunks := []; a_read := RDisconnected;
+                   a_race := []; a_cb_disc := []; a_accepts := [] |} in
+  let l1 := [LCall (UConnect true 4); LProcess 5 Read closed] in
+  let l2 := [LCall (UConnect true 4); LProcess 261 Write ready] in
+  count_ends 5 (snd (drun (dinit 5) l1)) = 1%nat /\
+  snd (exec_ucall (fst (drun (dinit 5) (l1 ++ l2))) (USend (5, 4) 10 Sent)) = [ORet (USend (5, 4) 10 Sent) (RSend ResourceNotFound)] /\
+  snd (exec_ucall (fst (drun (dinit 5) (l1 ++ l2))) (USend (261, 4) 10 Sent)) = [OAdapterSend 261 10; ORet (USend (261, 4) 10 Sent) (RSend Sent)].
+Proof. vm_compute. repeat split. Qed.
+
 Print Assumptions C14_gen_obligation.
+Print Assumptions C14_stale_endpoint_forever.
+Print Assumptions C14_events_carry_their_own_endpoint.
 Print Assumptions C14_id_fields_roundtrip.
 Print Assumptions C14_id_partition.
 Print Assumptions C14_mk_id_injective.
